@@ -462,6 +462,7 @@ func main() {
 	rep := c.NewReport("C13", a)
 	var hs []History
 	var ps []PubHistory
+	var rs []RaceCase
 	if a.Replay != "" {
 		// a hist-<id>.json file, or a replay file of ./check (the history
 		// is its "history" member)
@@ -477,11 +478,18 @@ func main() {
 		}
 		var probe struct {
 			Public bool `json:"public"`
+			Race   bool `json:"race"`
 		}
 		if err := json.Unmarshal(raw, &probe); err != nil {
 			panic(err)
 		}
-		if probe.Public {
+		if probe.Race {
+			var r RaceCase
+			if err := json.Unmarshal(raw, &r); err != nil {
+				panic(err)
+			}
+			rs = []RaceCase{{ID: r.ID, Race: true, Order: r.Order, Name: r.Name}}
+		} else if probe.Public {
 			var p PubHistory
 			if err := json.Unmarshal(raw, &p); err != nil {
 				panic(err)
@@ -515,10 +523,16 @@ func main() {
 		}
 		// the fixed regression history (started first: it ends with a sleep)
 		ps = append([]PubHistory{fixedPublic(pubIDBase + np)}, ps...)
+		// ban-vs-registration family (enforcement): every order
+		nr := 1
+		if a.Tier == "thorough" {
+			nr = 8
+		}
+		for i := 0; i < nr*len(raceOrders); i++ {
+			o := i % len(raceOrders)
+			rs = append(rs, RaceCase{ID: raceIDBase + i, Race: true, Order: o, Name: raceOrders[o]})
+		}
 	}
-	// bans of the public family last pubBan (package variable; the store
-	// histories pass their own durations)
-	neutrino.BanDuration = pubBan
 	work, err := os.MkdirTemp(a.Out, "db")
 	if err != nil {
 		panic(err)
@@ -528,22 +542,36 @@ func main() {
 	var wg sync.WaitGroup
 	sem := make(chan struct{}, a.Workers)
 	var env *pubEnv
-	if len(ps) > 0 {
-		env = newPubEnv(work)
-	}
-	for i := range ps {
-		if env.fail != "" {
-			ps[i].Fail = env.fail
-			continue
+	// The ban-vs-registration scenarios run first, one at a time, with the
+	// normal ban duration; only then does the public family start (it calls
+	// ChainService.BanPeer from many goroutines, with bans that last pubBan:
+	// neutrino.BanDuration is a package variable; the store histories pass
+	// their own durations).  The store histories run alongside both.
+	wg.Add(1)
+	go func() {
+		defer wg.Done()
+		tip := time.Now().Add(-20 * time.Minute).Unix()
+		for i := range rs {
+			runRace(&rs[i], work, tip)
 		}
-		wg.Add(1)
-		sem <- struct{}{}
-		go func(h *PubHistory) {
-			defer wg.Done()
-			defer func() { <-sem }()
-			runPublic(h, env.cl.CS)
-		}(&ps[i])
-	}
+		neutrino.BanDuration = pubBan
+		if len(ps) > 0 {
+			env = newPubEnv(work)
+		}
+		for i := range ps {
+			if env.fail != "" {
+				ps[i].Fail = env.fail
+				continue
+			}
+			wg.Add(1)
+			sem <- struct{}{}
+			go func(h *PubHistory) {
+				defer wg.Done()
+				defer func() { <-sem }()
+				runPublic(h, env.cl.CS)
+			}(&ps[i])
+		}
+	}()
 	for i := range hs {
 		wg.Add(1)
 		sem <- struct{}{}
@@ -607,7 +635,7 @@ func main() {
 	}
 
 	var sb strings.Builder
-	sb.WriteString("From Coq Require Import ZArith List.\nFrom Verif Require Import C13.Model C13.Spec C13.Replay.\nImport ListNotations.\nOpen Scope Z_scope.\n")
+	sb.WriteString("From Coq Require Import ZArith List.\nFrom Verif Require Import C13.Model C13.Spec C13.Replay C13.Enforce C13.ReplayE.\nImport ListNotations.\nOpen Scope Z_scope.\n")
 	sb.WriteString("Definition cases : list (Z * list (op * obs)) := [\n")
 	sigs := c.Signatures{}
 	nontrivial := c.Signatures{}
@@ -632,6 +660,7 @@ func main() {
 	}
 	sb.WriteString("].\n")
 	sb.WriteString(publicSection(ps, rep, a.Out, nontrivial))
+	sb.WriteString(raceSection(rs, rep, a.Out, nontrivial))
 
 	// parse cases: (parsed, mask option, expected net option)
 	sb.WriteString("Definition parse_cases : list (bytes * option bytes * option ipnet) := [\n")
@@ -679,7 +708,7 @@ func main() {
 		sb.WriteString(fmt.Sprintf("(%s, %s, %s)", netTerm(ipb, mb), enc, dec))
 	}
 	sb.WriteString("].\n")
-	sb.WriteString("Definition R := Eval vm_compute in (run_cases cases ++ run_pcases pcases ++ map (fun i => (i, 3, 0, 0)) (parse_mismatches parse_cases) ++ map (fun i => (i, 4, 0, 0)) (codec_mismatches codec_cases)).\nSet Printing Width 1000000.\nSet Printing Depth 1000000.\nPrint R.\n")
+	sb.WriteString("Definition R := Eval vm_compute in (run_cases cases ++ run_pcases pcases ++ run_rcases rcases ++ map (fun i => (i, 3, 0, 0)) (parse_mismatches parse_cases) ++ map (fun i => (i, 4, 0, 0)) (codec_mismatches codec_cases)).\nSet Printing Width 1000000.\nSet Printing Depth 1000000.\nPrint R.\n")
 	c.WriteFile(filepath.Join(a.Out, "cases.v"), sb.String())
 
 	// Independent implementation-side check: all spellings of one IP hit
@@ -696,9 +725,9 @@ func main() {
 	rep.Histogram["parse_cases"] = len(parseSeen)
 	rep.Histogram["codec_cases"] = len(codecSeen)
 	rep.Histogram["distinct_signatures"] = len(sigs)
-	rep.Evaluations = len(hs) + len(ps)
+	rep.Evaluations = len(hs) + len(ps) + len(rs)
 	rep.DistinctNontrivial = len(nontrivial)
-	rep.Rule = "histories of ban/unban/status/reopen(/sleep) over 8 addresses in random spellings and masks, executed on the real bbolt-backed banman.Store with the real clock; a history is non-trivial when it contains a ban, a status answered banned and a status answered not banned; distinct = distinct op-kind signature; public-entry family: histories of ChainService.IsBanned/BanPeer/UnbanPeer on a real ChainService (no peers, 1.2 s bans) with 2-3 addresses looked up under several spellings before being banned under another and under all of them after every ban/unban/lapse; non-trivial when it contains a ban, an IsBanned answered true and one answered false"
+	rep.Rule = "histories of ban/unban/status/reopen(/sleep) over 8 addresses in random spellings and masks, executed on the real bbolt-backed banman.Store with the real clock; a history is non-trivial when it contains a ban, a status answered banned and a status answered not banned; distinct = distinct op-kind signature; public-entry family: histories of ChainService.IsBanned/BanPeer/UnbanPeer on a real ChainService (no peers, 1.2 s bans) with 2-3 addresses looked up under several spellings before being banned under another and under all of them after every ban/unban/lapse; non-trivial when it contains a ban, an IsBanned answered true and one answered false; ban-vs-registration family: BanPeer(B) pinned at four points of the registration of a new connection to B (lookup held after / before its transaction, ban first, registration first) on a real ChainService with two scripted nodes"
 	for i := 0; i < len(hs) && i < 3; i++ {
 		rep.Samples = append(rep.Samples, hs[i])
 	}
